@@ -179,6 +179,7 @@ type Obs struct {
 	FlushErr       string     `json:"flush_err,omitempty"`
 	FlushN         int        `json:"-"`
 	FinishErr      string     `json:"finish_err,omitempty"`
+	Abandoned      bool       `json:"abandoned,omitempty"`
 	Out            string     `json:"out"`
 	Panic          string     `json:"panic,omitempty"`
 	PanicSig       string     `json:"-"`
@@ -373,7 +374,30 @@ func (d *LongLived) Close() {
 // ---------------------------------------------------------------------------------------------
 // per-request (persisted) driver
 
+// SharedPersister is one persist.Persister object (and its store handle) that serves the requests of several
+// sessions in turn: the "worker-wide persister" pattern. Mode "flush": created WithFlush, used from the first
+// request on. Mode "plain": used for a session once that session exists in the store (its first request goes
+// through a persister of its own).
+type SharedPersister struct {
+	Mode  string
+	store db.Db
+	pe    *persist.Persister
+	seen  map[string]bool
+	kind  string
+}
+
+func (sp *SharedPersister) Close() {
+	if sp.store != nil && sp.kind != "mem" {
+		vk.Guard(func() { sp.store.Close(context.Background()) })
+	}
+}
+
 type PerRequest struct {
+	// Shared, if set, makes the requests go through a shared persister object (see SharedPersister)
+	Shared *SharedPersister
+	// AbandonNext: the next request is executed and flushed but never finished (the client went away): nothing of it
+	// may be saved. Reset by Request.
+	AbandonNext     bool
 	Cfg             Config
 	Res             *RecRes
 	B               *Backend
@@ -396,15 +420,35 @@ func (d *PerRequest) Request(input []byte) *Obs {
 	o := &Obs{Input: string(input)}
 	ctx := context.Background()
 	d.Res.Take()
-	store, err := d.B.Handle()
+	abandon := d.AbandonNext
+	d.AbandonNext = false
+	useShared := d.Shared != nil && (d.Shared.Mode == "flush" || d.Shared.seen[d.Cfg.SessionId])
+	var store db.Db
+	var err error
+	if useShared && d.Shared.store != nil {
+		store = d.Shared.store
+	} else {
+		store, err = d.B.Handle()
+	}
 	if err != nil {
 		o.ExecErr = "harness: " + err.Error()
 		return o
 	}
 	var pe *persist.Persister
 	pv, stack := vk.Guard(func() {
-		pe = persist.NewPersister(store)
-		if d.Cfg.PersisterContent {
+		if useShared {
+			if d.Shared.pe == nil {
+				d.Shared.store, d.Shared.kind = store, d.B.Kind
+				d.Shared.pe = persist.NewPersister(store)
+				if d.Shared.Mode == "flush" {
+					d.Shared.pe = d.Shared.pe.WithFlush()
+				}
+			}
+			pe = d.Shared.pe
+		} else {
+			pe = persist.NewPersister(store)
+		}
+		if d.Cfg.PersisterContent && !useShared {
 			ca := cache.NewCache()
 			if d.Cfg.CacheSize > 0 {
 				ca = ca.WithCacheSize(d.Cfg.CacheSize)
@@ -448,8 +492,17 @@ func (d *PerRequest) Request(input []byte) *Obs {
 		if d.BeforeFinish != nil {
 			d.BeforeFinish()
 		}
+		if abandon {
+			o.Abandoned = true
+			return
+		}
 		if ferr := en.Finish(ctx); ferr != nil {
 			o.FinishErr = ferr.Error()
+		} else if d.Shared != nil {
+			if d.Shared.seen == nil {
+				d.Shared.seen = map[string]bool{}
+			}
+			d.Shared.seen[d.Cfg.SessionId] = true
 		}
 		if d.AfterFinish != nil {
 			d.AfterFinish()
@@ -469,7 +522,7 @@ func (d *PerRequest) Request(input []byte) *Obs {
 			}
 		})
 	}
-	if d.B.Kind != "mem" {
+	if d.B.Kind != "mem" && !useShared {
 		vk.Guard(func() { store.Close(ctx) })
 	}
 	if !d.SkipStoredRead {
